@@ -39,7 +39,7 @@ func init() {
 		}
 		g.rtmpParseTable(decls["Protocol.parseAMFObject"], decls)
 		g.rtmpDecodeTable(decls["Protocol.DecodeMessage"])
-		g.rtmpRequestTypes(decls[".requestTransaction"])
+		g.rtmpRequestTypes(decls["Protocol.WritePacket"], decls)
 		for _, c := range []string{"NewConnectAppPacket", "NewConnectAppResPacket", "NewCallPacket", "NewCloseStreamPacket",
 			"NewCreateStreamPacket", "NewCreateStreamResPacket", "NewPublishPacket", "NewPlayPacket"} {
 			g.rtmpCtor(c, decls["."+c])
@@ -165,7 +165,7 @@ func (g *gen) rtmpParseTable(fd *ast.FuncDecl, decls map[string]*ast.FuncDecl) {
 					}
 				case *ast.CallExpr:
 					if id, ok := x.Fun.(*ast.Ident); ok && id.Name == "delete" && len(x.Args) == 2 {
-						if strings.HasSuffix(exprText(x.Args[0]), "transactions") {
+						if g.isTxTable(x.Args[0]) {
 							deletePos = x.Pos()
 						}
 					}
@@ -175,7 +175,7 @@ func (g *gen) rtmpParseTable(fd *ast.FuncDecl, decls map[string]*ast.FuncDecl) {
 						}
 					}
 				case *ast.IndexExpr:
-					if strings.HasSuffix(exprText(x.X), "transactions") && lookupPos == token.NoPos {
+					if g.isTxTable(x.X) && lookupPos == token.NoPos {
 						lookupPos = x.Pos()
 					}
 				}
@@ -401,56 +401,120 @@ func (g *gen) rtmpDecodeTable(fd *ast.FuncDecl) {
 	g.pf("Definition rtmp_tbl_decode_types : list (Z * string) := %s.\n", pairList(types))
 }
 
-func (g *gen) rtmpRequestTypes(fd *ast.FuncDecl) {
+// the outstanding-request table, by TYPE: a map with a floating-point key and a string value
+func (g *gen) isTxTable(e ast.Expr) bool {
+	t := g.p.TypesInfo.TypeOf(e)
+	if t == nil {
+		return false
+	}
+	m, ok := t.Underlying().(*types.Map)
+	if !ok {
+		return false
+	}
+	kb, ok1 := m.Key().Underlying().(*types.Basic)
+	vb, ok2 := m.Elem().Underlying().(*types.Basic)
+	return ok1 && ok2 && kb.Info()&types.IsFloat != 0 && vb.Info()&types.IsString != 0
+}
+
+// the packet types that are requests: the type switch over a Packet whose clauses read the
+// packet's TransactionID and CommandName, found by CALL GRAPH from WritePacket (functions and
+// methods of the package, any file, at most three calls deep), whatever the function is called
+func (g *gen) rtmpRequestTypes(root *ast.FuncDecl, decls map[string]*ast.FuncDecl) {
 	bad := func(why string) {
 		g.pf("Definition rtmp_tbl_request_unsupported := tt. (* %s *)\n", why)
 	}
-	if fd == nil {
-		bad("requestTransaction not found")
+	if root == nil {
+		bad("WritePacket not found")
 		return
+	}
+	seen := map[*ast.FuncDecl]bool{root: true}
+	level := []*ast.FuncDecl{root}
+	var all []*ast.FuncDecl
+	for depth := 0; depth <= 3 && len(level) > 0; depth++ {
+		var next []*ast.FuncDecl
+		for _, fd := range level {
+			all = append(all, fd)
+			ast.Inspect(fd.Body, func(n ast.Node) bool {
+				call, ok := n.(*ast.CallExpr)
+				if !ok {
+					return true
+				}
+				var cands []*ast.FuncDecl
+				switch f := call.Fun.(type) {
+				case *ast.Ident:
+					cands = append(cands, decls["."+f.Name])
+				case *ast.SelectorExpr:
+					for k, d := range decls {
+						if strings.HasSuffix(k, "."+f.Sel.Name) && !strings.HasPrefix(k, ".") {
+							cands = append(cands, d)
+						}
+					}
+				}
+				for _, d := range cands {
+					if d != nil && !seen[d] {
+						seen[d] = true
+						next = append(next, d)
+					}
+				}
+				return true
+			})
+		}
+		level = next
+	}
+	mentions := func(body []ast.Stmt, field string) bool {
+		found := false
+		for _, st := range body {
+			ast.Inspect(st, func(n ast.Node) bool {
+				if se, ok := n.(*ast.SelectorExpr); ok && se.Sel.Name == field {
+					found = true
+				}
+				return true
+			})
+		}
+		return found
 	}
 	var ts []string
-	found := false
-	for _, st := range fd.Body.List {
-		sw, ok := st.(*ast.TypeSwitchStmt)
-		if !ok {
-			continue
-		}
-		found = true
-		for _, cc := range sw.Body.List {
-			c := cc.(*ast.CaseClause)
-			if c.List == nil {
-				bad("default clause")
-				return
+	nfound := 0
+	for _, fd := range all {
+		ast.Inspect(fd.Body, func(n ast.Node) bool {
+			sw, ok := n.(*ast.TypeSwitchStmt)
+			if !ok {
+				return true
 			}
-			// body must be: tid, name = pkt.TransactionID, pkt.CommandName
-			okBody := false
-			if len(c.Body) == 1 {
-				if as, ok := c.Body[0].(*ast.AssignStmt); ok && len(as.Lhs) == 2 && len(as.Rhs) == 2 &&
-					exprText(as.Lhs[0]) == "tid" && exprText(as.Lhs[1]) == "name" &&
-					exprText(as.Rhs[0]) == "pkt.TransactionID" && exprText(as.Rhs[1]) == "pkt.CommandName" {
-					okBody = true
+			var here []string
+			okAll := len(sw.Body.List) > 0
+			for _, cc := range sw.Body.List {
+				c := cc.(*ast.CaseClause)
+				if c.List == nil || !mentions(c.Body, "TransactionID") || !mentions(c.Body, "CommandName") {
+					okAll = false
+					break
+				}
+				for _, e := range c.List {
+					star, ok := e.(*ast.StarExpr)
+					if !ok {
+						okAll = false
+						break
+					}
+					here = append(here, exprText(star.X))
 				}
 			}
-			if !okBody {
-				bad("clause body is not `tid, name = pkt.TransactionID, pkt.CommandName`")
-				return
+			if okAll {
+				nfound++
+				ts = here
 			}
-			for _, e := range c.List {
-				if star, ok := e.(*ast.StarExpr); ok {
-					ts = append(ts, coqStr(exprText(star.X)))
-				} else {
-					bad("case type is not a pointer type")
-					return
-				}
-			}
-		}
+			return true
+		})
 	}
-	if !found {
-		bad("no type switch")
+	if nfound != 1 {
+		bad(fmt.Sprintf("%d type switches reading TransactionID and CommandName reachable from WritePacket", nfound))
 		return
 	}
-	g.pf("Definition rtmp_tbl_request_types : list string := [%s].\n", strings.Join(ts, "; "))
+	sort.Strings(ts)
+	var items []string
+	for _, t := range ts {
+		items = append(items, coqStr(t))
+	}
+	g.pf("Definition rtmp_tbl_request_types : list string := [%s].\n", strings.Join(items, "; "))
 }
 
 // constructor defaults: (CommandName, TransactionID bits, CommandObject constructor, StreamType)
